@@ -119,3 +119,13 @@ Example c06_example_schedule :
   fst (grants st ts) = [(1, 0); (0, 0); (2, 0); (0, 0); (3, 1); (0, 1)] /\
   forallb (fun th => match t_cur th with None => true | Some _ => false end) (snd (final_st st ts)) = true.
 Proof. vm_compute. auto. Qed.
+
+(* Known finding (known_findings.json `C06-entry-owns-its-force-guard`): the theorems above are about entries that do
+   not own guards of themselves (the model's alphabet has no such object).  For the excluded class the property
+   fails on the code as it is: the destructor run under the guard mutex drops the entry's own force-flush guard,
+   whose drop locks the same mutex; the thread is stuck for ever and nothing is appended. *)
+From MV Require Import C06.SelfOwned.
+Theorem c06_self_owned_force_guard_refuted : forall n,
+  s_appended (siter n s_as_found) = 0 /\ s_pc (siter n s_as_found) <> SDone.
+Proof. exact self_owned_never_appended. Qed.
+Print Assumptions c06_self_owned_force_guard_refuted.
